@@ -68,6 +68,8 @@ func boolInput(id run.CaseID) (subj, clp Paths) {
 		subj, clp = gen.RectCavity(r)
 	case "touching":
 		subj, clp = gen.Touching(r)
+	case "stacked":
+		subj, clp = gen.Stacked(r)
 	case "nested", "nested-small", "nested-large":
 		R := gen.PickOf(r, 500.0, 20000.0, 3.0e6, 2.0e8)
 		if id.Family == "nested-large" { // magnitudes at which two unrelated rings practically never come within the rounding band of each other
@@ -180,14 +182,46 @@ func nearPts(r *gen.Rng, sol Paths, maxN int) []Pt {
 }
 
 // execBool runs one boolean operation on a fresh engine with a recorder.
+// pathByPath picks, from the input alone, the one case in four whose paths are added through AddPath (one call per path)
+// instead of one AddPaths call per set; the two ways are documented to be equivalent.
+func pathByPath(subj, clp Paths) bool {
+	h := int64(len(subj))*31 + int64(len(clp))*17
+	for _, ps := range []Paths{subj, clp} {
+		for _, p := range ps {
+			h = h*131 + int64(len(p))
+			if len(p) > 0 {
+				h += p[0].X*7 + p[0].Y*3
+			}
+		}
+	}
+	return h&3 == 0
+}
+
+// addClosed adds closed subject and clip sets to an engine (see pathByPath).
+func addClosed(c interface {
+	AddPaths(Paths, clip.PathType, bool)
+	AddPath(Path, clip.PathType, bool)
+}, subj, clp Paths) {
+	if !pathByPath(subj, clp) {
+		c.AddPaths(subj, clip.Subject, false)
+		if clp != nil {
+			c.AddPaths(clp, clip.Clip, false)
+		}
+		return
+	}
+	for _, p := range subj {
+		c.AddPath(p, clip.Subject, false)
+	}
+	for _, p := range clp {
+		c.AddPath(p, clip.Clip, false)
+	}
+}
+
 func execBool(subj, clp Paths, ct clip.ClipType, fr clip.FillRule, keepEvents bool) (sol Paths, rec *clip.VerifRecorder, ok bool) {
 	c := clip.NewClipper64()
 	rec = clip.NewVerifRecorder(keepEvents)
 	c.VerifRecord(rec)
-	c.AddPaths(subj, clip.Subject, false)
-	if clp != nil {
-		c.AddPaths(clp, clip.Clip, false)
-	}
+	addClosed(c, subj, clp)
 	sol = make(Paths, 0)
 	ok = c.Execute(ct, fr, &sol)
 	return
@@ -359,7 +393,7 @@ func discardEventsAdds(adds []*addOp, ct clip.ClipType, fr clip.FillRule) []disc
 		rec := clip.NewVerifRecorder(true)
 		c.VerifRecord(rec)
 		for _, a := range adds {
-			c.AddPaths(a.Paths, clip.PathType(a.Type), a.Open)
+			a.addTo(c)
 		}
 		sol := Paths{}
 		c.Execute(ct, fr, &sol)
